@@ -48,6 +48,9 @@ func (d *Downloader) NotifyNewSnapshot() {
 func (d *Downloader) Run(ctx context.Context) error {
 	verifhook.Start(ctx, "downloader", d.instance)
 	for {
+		if verifhook.PreferDone(ctx) {
+			return context.Canceled
+		}
 		select {
 		case <-ctx.Done():
 			return context.Canceled
